@@ -148,7 +148,7 @@ pub fn enumerate(ec: &EdgeCfg, out: &mut dyn Write) -> (usize, usize) {
         let mask = enabled_mask(&enabled, &order);
         let pathj: Vec<Value> = path
             .iter()
-            .map(|s| json!([s.op.as_u8(), s.bytes]))
+            .map(|s| json!([s.op.as_u8(), s.bytes, s.seed.to_string()]))
             .collect();
         let mut int_outcomes: HashMap<(Vec<u8>, Proj), u64> = HashMap::new();
         for op in enabled {
@@ -181,6 +181,7 @@ pub fn enumerate(ec: &EdgeCfg, out: &mut dyn Write) -> (usize, usize) {
                 nedges += 1;
                 let line = json!({
                     "cfg": cfgj, "path": pathj, "op": op.as_u8(), "seed": seed.to_string(), "bytes": bytes,
+                    "muts": cfg.muts, "rate": cfg.rate,
                     "pre": proj_json(&pre), "post": proj_json(&post), "en": mask, "err": err,
                     "depth": path.len() - root_len,
                 });
@@ -346,7 +347,7 @@ pub fn guards(args: &[String]) -> i32 {
                 if mism.len() < 50 {
                     mism.push(json!({"stk": stk, "impl_only": impl_only.iter().map(|o| o.as_u8()).collect::<Vec<u8>>(), "model_only": model_only}));
                 }
-                let pathj: Vec<Value> = path.iter().map(|s| json!([s.op.as_u8(), s.bytes])).collect();
+                let pathj: Vec<Value> = path.iter().map(|s| json!([s.op.as_u8(), s.bytes, s.seed.to_string()])).collect();
                 for op in impl_only {
                     for &seed in &gs.seeds {
                         if edges >= 3000 { break; }
@@ -396,5 +397,40 @@ pub fn guards(args: &[String]) -> i32 {
     }
     let summary: Vec<Value> = handles.into_iter().map(|h| h.join().expect("worker")).collect();
     println!("{}", serde_json::to_string(&summary).unwrap());
+    0
+}
+
+
+/// `pfv edge-one <edge.json> <out.ndjson>`: re-execute one recorded edge (path steps with their
+/// seeds, then the forced opcode with its seed) on the real generator and write the fresh edge record
+pub fn edge_one(args: &[String]) -> i32 {
+    let e: Value = serde_json::from_str(&std::fs::read_to_string(&args[0]).expect("read")).expect("parse");
+    let c = &e["cfg"];
+    let cfg = Cfg { p: c["P"].as_u64().unwrap_or(0) as usize, min: 0, max: 0, muts: e.get("muts").and_then(|m| serde_json::from_value(m.clone()).ok()).unwrap_or_default(),
+        mut_unsafe: c["unsafe"].as_u64() == Some(1), rate: e.get("rate").and_then(|r| r.as_f64()).unwrap_or(0.1), rate_raw: false, rate_special: String::new(),
+        unsafe_: c["unsafe"].as_u64() == Some(1), ext: c["ext"].as_u64() == Some(1), buf: c["buf"].as_u64() == Some(1) };
+    std::panic::set_hook(Box::new(|_| {}));
+    let order = all_ops_sorted();
+    let mut g = fresh(&cfg);
+    let mut pathj: Vec<Value> = Vec::new();
+    for st in e["path"].as_array().cloned().unwrap_or_default() {
+        let b = st[0].as_u64().unwrap_or(0) as u8;
+        let seed: u64 = st.get(2).and_then(|x| x.as_str()).and_then(|x| x.parse().ok()).unwrap_or(1);
+        let Some(op) = op_by_byte(b) else { continue };
+        let bytes = force(&mut g, op, seed).unwrap_or_default();
+        pathj.push(json!([b, bytes, seed.to_string()]));
+    }
+    let pre = proj(&g);
+    let m = enabled_mask(&g.verif_valid_opcodes(), &order);
+    let opb = e["op"].as_u64().unwrap_or(0) as u8;
+    let seed: u64 = e["seed"].as_str().and_then(|x| x.parse().ok()).unwrap_or(1);
+    let (bytes, err) = match op_by_byte(opb) {
+        Some(op) if g.verif_valid_opcodes().contains(&op) => match force(&mut g, op, seed) { Ok(b) => (b, String::new()), Err(x) => (Vec::new(), x) },
+        _ => (Vec::new(), "opcode no longer enabled in this state".to_string()),
+    };
+    let post = proj(&g);
+    let mut out = std::fs::File::create(&args[1]).expect("create");
+    writeln!(out, "{}", json!({"cfg": e["cfg"], "path": pathj, "op": opb, "seed": seed.to_string(), "bytes": bytes,
+        "pre": proj_json(&pre), "post": proj_json(&post), "en": m, "err": err, "depth": pathj.len()})).unwrap();
     0
 }
